@@ -13,7 +13,8 @@ RULE = ('Pairs (recorded program P, replayed program P\'): P is a Hypothesis-gen
         'output data handlers, bursts of up to 21 calls of one alias, worker threads with private aliases, returning or '
         'raising operation); P\' is P or P after an edit script of 1-3 edits over its output calls (change argument, '
         'change kwarg, drop call, add call of an existing or new alias, swap two calls of one alias, change final '
-        'result, raise instead of return). The harness journals every output call at the call site. Oracle: '
+        'result, raise instead of return); optionally the same recorder first performs other replays of the recording '
+        '(successful, failing with a missing key after output calls, failing playback function). The harness journals every output call at the call site. Oracle: '
         'recorded_outputs == image of P\'s journal and playback_outputs == image of P\'\'s journal, as maps without '
         'duplicates or extras, where the image has one entry "output: <alias> #<n>.output" per call (n = per-alias '
         'ordinal from 1) holding {"args": positional args without the instance, "kwargs": kwargs} (or the data '
@@ -142,6 +143,38 @@ def run_pair(ctx, case):
         if rec_cas is not fetch_cas:
             rec_cas.close()
             rec.tape_cassette = fetch_cas
+        # optional history on the same recorder before the measured replay (each must leave nothing behind)
+        for prior in case.get('prior', []):
+            Wp = PS.World('REPLAY')
+            if prior == 'failed_replay':
+                pp = PS.assign_sids({'klass': 'instance', 'outs': [dict(d) for d in P['outs']] or
+                                     [{'alias': 'prior.out', 'kind': 'instance', 'handler': 'none',
+                                       'fail_missing': False, 'default': None}],
+                                     'ins': [{'alias': 'never-recorded', 'kind': 'instance', 'capture': 'all',
+                                              'handler': 'none', 'resolver': False}],
+                                     'steps': [{'t': 'out', 'i': 0, 'a': 'stale', 'kw': [], 'beh': 'ret', 'ret': None},
+                                               {'t': 'out', 'i': 0, 'a': 'stale2', 'kw': [], 'beh': 'ret', 'ret': None},
+                                               {'t': 'in', 'i': 0, 'a': 1, 'b': 2, 'usekw': False, 'beh': 'ret',
+                                                'ret': 1, 'name': 'n1'}],
+                                     'ending': 'return', 'result': None, 'extractor': 'none'})
+                for st_ in pp['steps']:
+                    st_['reraise_framework'] = True
+            else:
+                pp = P
+            clsp = PS.build_class(pp, rec, Wp)
+            classes.append(clsp)
+
+            def prior_pf(recording, clsp=clsp, pp=pp, prior=prior):
+                if prior == 'pf_raises':
+                    raise RuntimeError('playback function fails on purpose')
+                out = PS.execute(clsp, pp)
+                if out[0] == 'exc':
+                    raise out[2]
+
+            try:
+                rec.play(rid, prior_pf)
+            except Exception:  # pylint: disable=broad-except
+                pass
         W2 = PS.World('REPLAY')
         cls2 = PS.build_class(P2, rec, W2)
         classes.append(cls2)
@@ -191,7 +224,8 @@ def run_pair(ctx, case):
     ctx.case(case, bool(applied) or many, classes=tuple('edit:' + a for a in sorted(set(applied))) + (
         ('edit:none',) if not applied else ()) + tuple('shape:' + s for s in sorted(shapes) if s in (
             'threads', 'out-handler', 'out:static', 'alias>9calls', 'op-raises', 'out-raises')) + (
-                'differs' if diff_keys(want_rec, want_pb) else 'same-outputs', 'cassette:' + case['cassette']))
+                'differs' if diff_keys(want_rec, want_pb) else 'same-outputs', 'cassette:' + case['cassette']) +
+             tuple('prior:' + x for x in case.get('prior', [])))
 
 
 edit = st.fixed_dictionaries({
@@ -203,7 +237,8 @@ edit = st.fixed_dictionaries({
 def cases():
     progs = PS.programs(values=V.small_values, in_behs=('ret', 'ret', 'raise'),
                         out_extra={'fail_missing': st.just(False), 'default': st.none()})
-    return st.fixed_dictionaries({'prog': progs, 'edits': st.one_of(st.just([]), st.lists(edit, min_size=1, max_size=3), st.lists(edit, min_size=1, max_size=3)),
+    priors = st.lists(st.sampled_from(['failed_replay', 'ok_replay', 'pf_raises']), max_size=2)
+    return st.fixed_dictionaries({'prog': progs, 'prior': st.one_of(st.just([]), st.just([]), priors), 'edits': st.one_of(st.just([]), st.lists(edit, min_size=1, max_size=3), st.lists(edit, min_size=1, max_size=3)),
                                   'cassette': st.sampled_from(['memory', 'memory', 'file', 's3', 'async'])})
 
 
